@@ -82,6 +82,14 @@ def same(a, b, ulps=0):
     if ulps and a_.dtype.kind in "fc" and a_.shape == () and b_.shape == ():
         if abs(complex(a_) - complex(b_)) <= ulps * onp.finfo(float).eps * max(abs(complex(b_)), 1e-300):
             return None
+    if a_.dtype.kind == "c" and a_.shape == b_.shape and a_.size:
+        # NumPy's complex multiply/square kernels are not bitwise reproducible between calls on the same values (the SIMD
+        # and scalar code paths, chosen by buffer alignment / scalar-vs-array dispatch, round differently by 1 ulp; observed
+        # with raw np.square on one complex128 value), so complex results are compared to 4 ulp per component
+        eps = onp.finfo(a_.real.dtype).eps
+        mag = onp.maximum(onp.abs(b_), 1e-300)
+        if onp.all((onp.abs(a_ - b_) <= 4 * eps * mag) | (onp.isnan(a_) & onp.isnan(b_))):
+            return None
     if not onp.array_equal(a_, b_, equal_nan=a_.dtype.kind in "fc"):
         return f"values differ (max abs diff {float(onp.max(onp.abs(a_.astype(complex) - b_.astype(complex)))):.3e})"
     return None
